@@ -283,3 +283,49 @@ def foreign_key_never_touched(root_named: bool, route: int, default_exists: bool
         hold("files", used <= {CTK}, lambda: "key files opened: %r, only %r holds a key that is needed" % (sorted(used), CTK))
         hold("files", not fs.writes, lambda: "key files created/written: %r" % (fs.writes,))
     return True
+
+
+# --------------------------------------------------------------------------- built on its own, attached afterwards
+@obligation(prop="C03", sites=("attached",), stubs=("FakeFS",), budget={"quick": 120, "thorough": 300},
+            encodes=["cincoconfig.core.Config._keyfile", "cincoconfig.fields.secure_field.SecureField.to_basic"],
+            what="a sub-configuration or list item that was built on its own (no parent) and possibly already "
+                 "serialised once (which made it use the default key file) is attached to a configuration that names "
+                 "a key file: from then on its secret is encrypted under that key file, and the saved tree loads back "
+                 "in a new configuration naming the same key file")
+def standalone_then_attached(where: int, used_alone: int, mi: int) -> bool:
+    """
+    pre: 0 <= where <= 2 and 0 <= used_alone <= 2 and 0 <= mi <= 1
+    post: _
+    """
+    method = "xor" if mi == 0 else "aes"
+    fs = FakeFS(files=dict(KEYS), dirs=["/k", DEFAULTK.rsplit("/", 1)[0] or "/"])
+    with fs.patched():
+        part = Schema()
+        part.pw = SecureField(method=method)
+        schema = Schema()
+        schema.sub = part
+        schema.items = ListField(part, default=lambda: [])
+        piece = part()                    # stand-alone: no parent, no key file named
+        piece.pw = "p-secret"
+        if used_alone == 1:
+            piece.to_tree()               # serialised on its own: the default key file is the right one HERE
+        elif used_alone == 2:
+            piece.dumps(format="json")
+        root = schema(key_filename=ROOTK)
+        if where == 0:
+            root.sub = piece
+            leaf = lambda t: t["sub"]["pw"]      # noqa: E731
+        elif where == 1:
+            root.items = [piece]
+            leaf = lambda t: t["items"][0]["pw"]  # noqa: E731
+        else:
+            root.items.append(piece)
+            leaf = lambda t: t["items"][0]["pw"]  # noqa: E731
+        tree = root.to_tree()
+        hold("attached", _decrypt(leaf(tree), KEYS[ROOTK]) == "p-secret",
+             "after being attached, the part's secret is not encrypted under the key file its parent names")
+        fresh = schema(key_filename=ROOTK)
+        fresh.load_tree(tree)
+        got = fresh.sub.pw if where == 0 else fresh.items[0].pw
+        hold("attached", got == "p-secret", "the saved tree does not load back under the parent's key file")
+    return True
